@@ -402,12 +402,22 @@ func (n *gnode) observeOwn(raw []byte) {
 	}
 }
 
+// recordOwnVoteAt notes a vote the voter signs. An honest voter signs one prevote and one precommit
+// per round. The one excuse: a voter that was restarted has no memory of the votes it cast before
+// (gossamer keeps its own votes in memory only) and may sign a second, different vote for a round it
+// had already voted in - from then on it is an equivocator, not an honest voter in the sense of C22,
+// and counts against the less-than-a-third budget. Without a restart (or for a later round) a second,
+// different vote is the voter's own code equivocating.
 func (n *gnode) recordOwnVoteAt(setID, round uint64, stage int, h common.Hash) {
 	if n.signed == nil {
 		n.signed = map[[3]uint64]common.Hash{}
 	}
 	key := [3]uint64{setID, round, uint64(stage)}
 	if old, ok := n.signed[key]; ok && old != h {
+		if !n.restarted || round > n.excusedRound {
+			n.s.k.Violate(n.s.k.Prop, "honest-votes-once", fmt.Sprintf("honest-voter-signed-two-different-votes-in-one-round:stage-%d", stage),
+				"node %d signed a second vote in round %d (set %d, stage %d): first %s, now %s - without having been restarted since the first one", n.id, round, setID, stage, cu.Short(old), cu.Short(h))
+		}
 		if !n.amnesiac {
 			n.s.k.Probe("restarted-voter-signed-second-vote-in-round")
 			n.s.k.Event("amnesiac", "n%d round=%d stage=%d %s then %s", n.id, round, stage, cu.Short(old), cu.Short(h))
